@@ -2,6 +2,7 @@ CONSTANTS
   NC = 8
   OffWin = 124
   MaxDiff = 4
+  PrecKinds = {"Type1", "Type3"}
   Fonts <- FontsDiff
   Defined <- SampleDefined
   Dev <- AllDev
